@@ -81,6 +81,31 @@ CHECKS = {
         "Decides: (R1) every layer use is nil-guarded; (R2) Open returns the first success and ErrNotExist otherwise, ReadDir stores only under !exists in ascending layer order; (R3) results are built from a name-keyed set and sorted; (R4) existence is not decided by len(merged).",
         "Not decided: file-over-directory shadowing semantics, metadata equality, glob syntax. Trusted: go/ssa, sort.*.",
     ),
+    "C01": (
+        "serialiser-scoped forward taint of text/attribute loads with escaper sanitizers and exemption classification (identity guard, script/style branch, carriers); typestate taint of evaluator results; data-to-code value-flow taint",
+        "Decides: (R1) evaluated node lists never re-enter an evaluator/handler and the attribute handler skips the internal carriers; (R2) every text and attribute value the serialiser emits is escaped, except under an identity guard, in the script/style branch, or for the two carriers, and escaper helpers are total; (R3) the v-text carrier is escaped when stored and no other raw channel exists; (R4) no data value flows into a template/expression argument; (C04.R7) loop instances are private deep clones; (C06.R1, C20.R3) related raw-leak rules.",
+        "Not decided: that an HTML5 parser sees the same element/attribute structure for every hostile string (html.EscapeString and the parser are trusted). Assumes attribute values stored under a dynamic key do not hit the two reserved carrier keys. Trusted: go/ssa, call graph.",
+    ),
+    "C02": (
+        "node-type table extraction from the serialiser's switch, void-awareness check, the escape-discipline taint of C01.R2",
+        "Decides: (R1) the serialiser has a case for text, element and doctype nodes; (R2) end tags are controlled by a void-element test (open known finding: <br></br>); (C01.R2) parsed, entity-decoded static text and attribute values are re-escaped without content sniffing; (C19.R3) the formatter's void table.",
+        "Not decided: round-trip equality of attribute/value/text in general, whitespace handling, raw-text elements with several children. Trusted: go/ssa.",
+    ),
+    "C13": (
+        "per-expression-site check of which evaluator receives template text, error-result dataflow of pipe-interpreter calls, loop-carried threading of segment inputs, constant-argument checks",
+        "Decides: (R1) each expression position hands its text to the pipe interpreter (which reaches the function registry) before any bare evaluation (six open known findings in condition/object/slot positions); (R2) only the filter evaluator calls functions reflectively, its errors name the function, and pipe errors are returned (two open known findings in evalTemplate); (R3) segments are threaded left to right and the piped value is the first argument; (R4) string-to-integer argument conversion is decimal; (C10.R6) compiled expressions are cached by expression text only.",
+        "Not decided: operator semantics, conventional evaluation, conversions beyond the base, quoting variants. Trusted: go/ssa, call graph, expr-lang.",
+    ),
+    "C19": (
+        "formatter-scoped forward taint of Attribute.Val and text Data with escaper sanitizers recognised by their byte tables; void-table comparison against the repository's own atom constants; node-type table",
+        "Decides: (R1) every attribute value written passes a function that rewrites the double quote and the ampersand; (R2) every text node written outside script/style passes the & < > escaper; (R3) the void-element table equals HTML's and controls close tags; (R4) Document/Element/Text/Comment nodes are handled.",
+        "Not decided: idempotence and parse-equivalence as such, layout rules, whitespace, front-matter byte identity, mustache preservation inside text. Trusted: go/ssa, x/net/html/atom constants.",
+    ),
+    "C20": (
+        "typed-AST case tables against a frozen list of goldmark node kinds; cross-artefact check of embedded templates (parsed with x/net/html) against data literals; forward taint of Markdown source bytes to raw sinks",
+        "Decides: (R1) every GFM block/inline/table node kind has a handler; (R2) every rendered template exists and reads only variables its data literal provides, and every embedded template is used; (R3) source text reaches the v-html stream only through an escaper, except raw HTML and code strings; (R4) the user's filesystem is the upper overlay layer; (C10.R6) no package-level output cache; (C02.R2) <br> finding.",
+        "Not decided: agreement with a CommonMark/GFM reference in structure and text, heading ids, list starts, code-block content extraction. Trusted: go/types, go/ssa, goldmark's HTML writer escapes text.",
+    ),
 }
 
 PENDING_REASON = "check for this property is being built in this session (see DESIGN.md section 2 for the planned rules); not claimed until its rules run clean on the unchanged tree"
